@@ -68,6 +68,12 @@ def dstep (d : DState) (toks : List String) : DState × List String :=
     match d.st, unhex? hx with
     | some _, some b => if d.dead then (d, ["bad-op"]) else ({ d with srv := d.srv ++ b }, ["ok"])
     | _, _ => (d, ["bad-op"])
+  | ["feedrep", hx, n] =>
+    match d.st, unhex? hx, n.toNat? with
+    | some _, some b, some n =>
+      if d.dead ∨ n > 4000000 ∨ b.length * n > 67108864 then (d, ["bad-op"])
+      else ({ d with srv := d.srv ++ (List.replicate n b).flatten }, ["ok"])
+    | _, _, _ => (d, ["bad-op"])
   | ["msg", hx] =>
     match d.st, unhex? hx with
     | some s, some b =>
